@@ -379,6 +379,32 @@ theorem check_sound (cs : List (Cfg α)) (out : List (ORow α)) (h : chainsOk cs
       exact ⟨c, hcs, this.1.1, this.1.2, this.2⟩
     · exact absurd this (by simp)
 
+/-- **Completeness of the checker**: an output for which all clauses of the statement hold is accepted —
+the checker demands nothing beyond the statement, so it cannot raise an alarm on an output that satisfies it. -/
+theorem check_complete (cs : List (Cfg α)) (out : List (ORow α)) (h : Spec cs out) : chainsOk cs out = true := by
+  obtain ⟨hOnce, hOrd, hDist, _⟩ := h
+  simp only [chainsOk, Bool.and_eq_true]
+  refine ⟨⟨List.isPerm_iff.2 hOnce, ?_⟩, ?_⟩
+  · exact List.all_eq_true.2 (fun r _ => List.isPerm_iff.2 (hOrd r.1 r.2.obj))
+  · refine List.all_eq_true.2 (fun a ha => List.all_eq_true.2 (fun b hb => ?_))
+    split
+    · rename_i hc
+      simp only [Bool.and_eq_true, beq_iff_eq] at hc
+      obtain ⟨c, hcs, h1, h2, h3⟩ := hDist a ha b hb hc.1.1 hc.1.2 hc.2
+      rw [hcs]
+      simp only [Bool.and_eq_true, decide_eq_true_eq]
+      exact ⟨⟨h1, h2⟩, h3⟩
+    · rfl
+
+/-- the checker DECIDES the statement: it accepts an output exactly when the four clauses hold for it -/
+theorem check_iff (cs : List (Cfg α)) (out : List (ORow α)) : chainsOk cs out = true ↔ Spec cs out :=
+  ⟨check_sound cs out, check_complete cs out⟩
+
+/-- the table the model of the documented `trace_chains` returns is accepted by the checker, for every input
+(so a disagreement between checker verdict on the implementation's table and the model is never the checker's doing) -/
+theorem model_accepted (cs : List (Cfg α)) : chainsOk cs (runAll Opts.documented cs) = true :=
+  check_complete cs _ (trace_spec_full cs)
+
 /-! ### regression witnesses and non-vacuity -/
 
 /-- D18 (a1, P, S0, L, b1, F; `max_distance = 3`): with the tail renumbered in DataFrame ROW order
